@@ -126,6 +126,7 @@ class Recorder:
         self.inj_count = 0
         self.dup_log: List[dict] = []
         self.recv_counts: Dict[int, int] = {}
+        self.gone_infos: Dict[int, Any] = {}
 
     def ev(self, _ev: str, **kw: Any) -> dict:
         if getattr(self, 'stopped', False):
@@ -195,7 +196,16 @@ class Recorder:
         aio = self.host.aiozc
         if op == 'reg':
             sp = st['svc']
-            info = self.make_info(sp)
+            gone = self.gone_infos.get(sp['sid'])
+            if (st.get('same_object') and gone is not None
+                    and all(gone[1][k] == sp[k] for k in ('type', 'name', 'host', 'addrs', 'txt'))):
+                # the application registers the object it had unregistered again, after changing port and / or TTLs on it
+                info = gone[0]
+                info.port = sp['port']
+                info.host_ttl = sp['host_ttl']
+                info.other_ttl = sp['other_ttl']
+            else:
+                info = self.make_info(sp)
             coop = st.get('coop', True)
             cands = []
             if not coop:
@@ -246,11 +256,22 @@ class Recorder:
             info = self.infos.pop(st['sid'], None)
             if info is None:
                 return
-            self.specs.pop(st['sid'], None)
+            oldsp = self.specs.pop(st['sid'], None)
+            if oldsp is not None:
+                self.gone_infos[st['sid']] = (info, oldsp)
             self.ev('api', op='unreg', sid=st['sid'])
             task = await aio.async_unregister_service(info)
             self.pending_tasks.append(task)
             self.ev('api_ret', op='unreg', sid=st['sid'], ok=True)
+        elif op == 'unreg_all':
+            # every service is withdrawn at once, the instance stays open
+            for sid in list(self.infos):
+                info = self.infos.pop(sid)
+                oldsp = self.specs.pop(sid, None)
+                if oldsp is not None:
+                    self.gone_infos[sid] = (info, oldsp)
+            self.ev('api', op='unreg_all')
+            self.bg.append(asyncio.ensure_future(aio.zeroconf.async_unregister_all_services()))
         elif op == 'close':
             self.ev('api', op='close', again=self.closed)
             try:
@@ -416,8 +437,10 @@ class Recorder:
                 self.bg.append(asyncio.ensure_future(self.api(st2)))
             elif op == 'raw':
                 if not self.closed:
-                    self.host.inject(bytes.fromhex(st['data']), src=st.get('src', '10.0.0.9'), port=st.get('port', 5353),
-                                     sock=st.get('sock', 0))
+                    src = st.get('src', '10.0.0.9')
+                    if self.sc.get('v6src'):
+                        src = V6SRC.get(src, 'fe80::99')
+                    self.host.inject(bytes.fromhex(st['data']), src=src, port=st.get('port', 5353), sock=st.get('sock', 0))
             else:
                 await self.api(st)
         for fut in self.bg:
@@ -599,6 +622,21 @@ def gen_resp(rng: random.Random, sid: str, focus: str, thorough: bool = False) -
         p_unreg = {'c08': 0.25, 'c03': 0.15}.get(focus, 0.06)
         # API calls on a service only once its previous announcement / goodbye sequence is over (property domain:
         # unregister / close timing is quantified relative to queries, not relative to registration)
+        if r < {'c08': 0.05, 'c03': 0.02}.get(focus, 0.01) and live and all(busy[x['sid']] <= t for x in live):
+            if rng.random() < 0.6:
+                # an address answer parked by the one-second rule when everything is withdrawn: asked, answered at once, asked again
+                h = rng.choice(live)['host']
+                for dt in (0, rng.choice([150, 400, 700])):
+                    t += dt
+                    steps += [{'op': 'at', 't': t}, {'op': 'query', 'qs': [{'name': h, 'type': rng.choice([wire.T_A, wire.T_AAAA]), 'sp': 0,
+                                                                            'qu': False}], 'qid': rng.randint(1, 65535), 'src': '10.0.0.23'}]
+                t += rng.choice([50, 200, 500])
+                steps.append({'op': 'at', 't': t})
+            for x in live:
+                busy[x['sid']] = max(busy[x['sid']], t + 300)
+            live = []
+            steps.append({'op': 'unreg_all'})
+            continue
         if r < p_unreg and [x for x in live if busy[x['sid']] <= t]:
             sp = rng.choice([x for x in live if busy[x['sid']] <= t])
             live.remove(sp)
@@ -628,8 +666,13 @@ def gen_resp(rng: random.Random, sid: str, focus: str, thorough: bool = False) -
             if same_host:
                 sp['host_ttl'] = same_host[0]['host_ttl']       # one TTL per host name (domain, see the update step)
             busy[sp['sid']] = t + 500
+            same = rng.random() < 0.5
+            if same:
+                sp['port'] = rng.choice([80, 8080, 9999])
+                if rng.random() < 0.5:
+                    sp['other_ttl'] = rng.choice([4500, 120, 30])
             live.append(sp)
-            steps.append({'op': 'reg', 'svc': sp, 'coop': True})
+            steps.append({'op': 'reg', 'svc': sp, 'coop': True, 'same_object': same})
             continue
         pool = live if live and rng.random() < 0.9 else svcs
         q = gen_query(rng, pool, focus)
@@ -745,7 +788,23 @@ def gen_c09(rng: random.Random, sid: str, thorough: bool = False) -> dict:
                   'src': '10.0.0.9'})
     end += 1500
     steps.append({'op': 'at', 't': end})
-    if rng.random() < 0.35:
+    if nconf == 0 and not expired_case and rng.random() < 0.5:
+        # the application unregisters the service, somebody else takes the name, and the same ServiceInfo object is
+        # registered again: it has to come up under the next free name with a complete record set of that name
+        steps.append({'op': 'unreg', 'sid': sp['sid']})
+        end += 400
+        steps += [{'op': 'at', 't': end}, {'op': 'conflict', 'svc': sp, 'k': 0, 'exact': True, 'ttl': 4500}]
+        end += rng.choice([700, 1100, 2000])
+        steps += [{'op': 'at', 't': end}, {'op': 'reg_bg', 'svc': sp, 'coop': False, 'rename': True, 'exact': [0], 'same_object': rng.random() < 0.7}]
+        end += 2500
+        steps.append({'op': 'at', 't': end})
+        for k in range(0, 2):
+            nm = sp['name'] if k == 0 else '%s-%d.%s' % (inst, k + 1, sp['type'])
+            steps.append({'op': 'query', 'qs': [{'name': nm, 'type': wire.T_SRV, 'sp': 0, 'qu': False}], 'qid': 17 + k, 'port': 40002,
+                          'src': '10.0.0.9'})
+        end += 1500
+        steps.append({'op': 'at', 't': end})
+    elif rng.random() < 0.35:
         # the same name again on the same instance
         sp2 = dict(sp)
         sp2['sid'] = sp['sid'] + 4
